@@ -6,10 +6,10 @@
 (***************************************************************************)
 EXTENDS Def, Enum
 
-CtxText == "(def x 10) (def f (fn [x & y] (trace! (list :f x y)) (if x (first y) y))) (def g (fn [] x))"
-CtxForms == ReadAll(CtxText)
+C01CtxText == "(def x 10) (def f (fn [x & y] (trace! (list :f x y)) (if x (first y) y))) (def g (fn [] x))"
+C01CtxForms == ReadAll(C01CtxText)
 
-G == Grammar(
+C01G == Grammar(
   <<"0", "1", "nil", "false", "\"\"", "()", "x", "y", "(g)", "(do)">>,
   <<"(trace! _1)", "(def x _1)", "(def y _1)", "(quote _1)", "(f _1)", "(fn [y] _1)", "((fn [] _1))">>,
   <<"(if _1 _2)", "(do _1 _2)", "(let [x _1] _2)", "(let [y _1] _2)", "((fn [y] _2) _1)",
